@@ -48,6 +48,7 @@ void h_psig_verify(void) {
         int canonQ = Qy < p, neg_e = ((int)(Qy & 1)) != ci.parity_acc, nonce_par = si.fin_nonce_parity != 0, wiring, eq_a, eq_b;
         const secp256k1_gej *T;
         __CPROVER_assert(g_illegal == 0, "C07 partial_sig_verify: no callback for initialised objects, whatever their content");
+        if (g_ecmult_n == 0 && g_mm_n >= 1 && g_mm_ret == 0) { __CPROVER_assert(ret == 0, "C12 partial_sig_verify: a failing multi-multiplication never verifies"); return; }
         /* the verdict is the infinity verdict of a sum whose one operand is the (possibly negated) effective nonce */
         __CPROVER_assert(g_aj_n >= 1 && ret == g_aj_r0.infinity, "C12 partial_sig_verify: verdict = the final sum is the point at infinity");
         __CPROVER_assert(g_en_n >= 1 && sval(&g_en_b) == b && same_ge(&g_en_p0, &pts[0]) && same_ge(&g_en_p1, &pts[1]), "C12 partial_sig_verify: effective nonce = R1 + b*R2 over the signer's two public nonce points and the session's b");
